@@ -648,6 +648,9 @@ def _style_events(tid0):
 
 
 def run(ctx, replay=None):
+    # bit-exact comparisons need the SAME arguments, memory layout included: the layout cycling of qlib.q_from_float is
+    # switched off here (layout independence has its own Layout events, compared to rounding)
+    os.environ["VERIF_LAYOUTS"] = "0"
     lib()
     thorough = ctx.tier == "thorough"
     maxlen = 3 if thorough else 2
